@@ -5,7 +5,7 @@ From Coq Require Import List Bool Arith NArith ZArith Lia Permutation.
 From CliUtils Require Import Model.ObjSet Model.ActuationTable Model.PipelineTypes Model.Pipeline
      Proofs.ObjSetProofs Proofs.ActuationTableProofs Proofs.PipelineBase Proofs.PipelineAuth
      Corr.CorrPipeline Proofs.PipelineOrphansBase Proofs.PipelineOrphansSpec Proofs.PipelineOrphansInv
-     Proofs.PipelineOrphansPlan.
+     Proofs.PipelineOrphansWait Proofs.PipelineOrphansPlan.
 Import ListNotations.
 
 (* ---- hypotheses of the theorem --------------------------------------------------------- *)
@@ -20,7 +20,12 @@ Definition WF (sc : scenario) (c0 : cluster) : Prop :=
   (* an existing inventory object lives in an existing namespace (or that namespace is tracked) *)
   (forall n l, sc_inv_ns sc = Some n -> inv c0 = Some l -> In n (map c_id (objs c0)) \/ In n l) /\
   (* the destroyer always prunes *)
-  (o_destroy (sc_opts sc) = true -> o_prune (sc_opts sc) = true).
+  (o_destroy (sc_opts sc) = true -> o_prune (sc_opts sc) = true) /\
+  (* the status watcher does not lie about an object held by a finalizer: such an object is never
+     reported NotFound, nor with a UID other than the one it has in the cluster *)
+  (forall w o, In w (e_waits (sc_env sc)) -> In o (w_deliv w) -> u_fin (uinfo_of sc (s_id o)) = true ->
+     s_st o <> SNotFound /\
+     (s_body o = true -> s_uid o <> 0%N -> forall c, In c (objs c0) -> c_id c = s_id o -> s_uid o = c_uid c)).
 
 (* the known finding C01-invns-apply-failed does not occur in the run: it is not
    the case that the inventory namespace n, not tracked before the run, was created by the inventory-add
@@ -60,13 +65,19 @@ Section RunJ.
     intros H1 H2. destruct HWF as [_ [_ [_ [_ [W _]]]]]. destruct (W n l H1 H2) as [X|X]; [left|right; exact X].
     unfold fo. intros Y. apply find_obj_none in Y. contradiction.
   Qed.
+  Lemma wf_fin w o : In w (e_waits (sc_env sc)) -> In o (w_deliv w) -> finok sc c0 o.
+  Proof.
+    intros Hw Ho UF. destruct HWF as [_ [_ [_ [_ [_ [_ W]]]]]]. destruct (W w o Hw Ho UF) as [A B].
+    split; [exact A|]. intros Hb Hu c Hc. apply (B Hb Hu c); [eapply find_obj_In; exact Hc|eapply find_obj_id; exact Hc].
+  Qed.
 
   (* ---- the invariant at the start of the task list ------------------------------------------ *)
   Section Init.
     Variable pl : plan.
-    Variable td : list id.
+    Variable td tw : list id.
     Variable s : rst.
     Hypothesis S_cl : r_cl s = c0.
+    Hypothesis S_cache : r_cache s = [].
     Hypothesis S_ab : r_aband s = [].
     Hypothesis S_tr : r_tr s = [].
     Hypothesis S_keys : NoDup (tkeys (r_tbl s)).
@@ -99,7 +110,7 @@ Section RunJ.
       destruct (o_prune (sc_opts sc)) eqn:EP.
       - left. rewrite andb_false_r. auto.
       - right. destruct (o_destroy (sc_opts sc)) eqn:ED; [|auto].
-        destruct HWF as [_ [_ [_ [_ [_ W]]]]]. rewrite (W ED) in EP. discriminate.
+        destruct HWF as [_ [_ [_ [_ [_ [W _]]]]]]. rewrite (W ED) in EP. discriminate.
     Qed.
 
     Lemma init_tv_inv j st a u : tv s j = Some (st, a, u) ->
@@ -116,7 +127,7 @@ Section RunJ.
       intros [= <- <- <-]. apply memn_In in E3. auto.
     Qed.
 
-    Lemma init_Big : Big sc c0 pl P0 td s.
+    Lemma init_Big : Big sc c0 pl P0 td tw s.
     Proof.
       constructor.
       - rewrite S_cl. exact wf_nodup.
@@ -133,8 +144,8 @@ Section RunJ.
         + intros H. exists APending, 0%N. apply init_tv_apply. exact H.
         + intros c Hc Ho. left. exists c. auto.
         + intros c _ _ Hp. destruct (init_tv_prune j Hp) as [[_ E]|[_ E]]; rewrite E.
-          * exists APending, 0%N. split; [reflexivity|]. split; [discriminate|intros []].
-          * exists ASkipped, 0%N. split; [reflexivity|]. split; [discriminate|intros []].
+          * exists APending, 0%N. split; [reflexivity|]. split; [intros []|discriminate].
+          * exists ASkipped, 0%N. split; [reflexivity|]. split; [intros []|discriminate].
         + intros H. apply (proj2 P_td) in H. destruct H as [H|[HP H]].
           * exists SApply, 0%N. apply init_tv_apply. exact H.
           * destruct (init_tv_prune j H) as [[_ E]|[X _]]; [|congruence]. exists SDelete, 0%N. exact E.
@@ -144,10 +155,33 @@ Section RunJ.
         + intros [].
         + intros [m [st []]].
         + intros _ H. exact H.
+      - intros o Ho. rewrite S_cache in Ho. destruct Ho.
     Qed.
   End Init.
 
   (* ---- the run ------------------------------------------------------------------------------- *)
+  Lemma cache_fetch_all ids : forall s, r_cache (fst (fetch_all sc s ids)) = r_cache s.
+  Proof.
+    induction ids as [|i t IH]; intros s; cbn [fetch_all]; [reflexivity|].
+    pose proof (cache_get_obj sc s i) as G. destruct (get_obj sc s i) as [s1 g]. cbn [fst] in G.
+    destruct g; cbn [fst]; [exact G|rewrite IH; exact G|].
+    specialize (IH s1). destruct (fetch_all sc s1 t) as [s2 r]. cbn [fst] in *. congruence.
+  Qed.
+  Lemma cache_register pl s : r_cache (register sc pl s) = r_cache s.
+  Proof.
+    unfold register.
+    assert (F : forall (l : list pobj) st a s0, r_cache (fold_left (fun s p => rec_add s (p_id p) st a 0%N 0%Z) l s0) = r_cache s0).
+    { induction l as [|p l IH]; intros st a s0; cbn [fold_left]; [reflexivity|]. rewrite IH. reflexivity. }
+    destruct (negb (o_destroy (sc_opts sc)) && negb (o_prune (sc_opts sc))); destruct (o_prune (sc_opts sc));
+      rewrite ?F; reflexivity.
+  Qed.
+  Lemma val_fold_same errs : forall s,
+    let s' := fold_left (fun s e => ev s (EValidation (sortn e))) errs s in r_tbl s' = r_tbl s /\ r_cache s' = r_cache s.
+  Proof.
+    induction errs as [|e t IH]; intros s; cbn [fold_left]; [split; reflexivity|].
+    destruct (IH (ev s (EValidation (sortn e)))) as [A B]. cbv zeta in *. rewrite A, B. split; reflexivity.
+  Qed.
+
   Definition good (sf : rst) : Prop :=
     Forall (Qj sc c0) (r_tr sf) /\ NoDup (ids_of (r_cl sf)) /\ J sc c0 (r_cl sf).
 
@@ -161,6 +195,7 @@ Section RunJ.
   Proof.
     intros KF. unfold run_state in *. cbv zeta in *.
     pose proof (same4_inv_list sc (init_state c0)) as L1. pose proof (inv_list_res sc (init_state c0)) as R1.
+    pose proof (cache_inv_list sc (init_state c0)) as KC1.
     destruct (inv_list sc (init_state c0)) as [s1 r1]. cbn [fst snd] in *. destruct L1 as [C1 [B1 [A1 T1]]].
     cbn [init_state r_cl r_tbl r_aband r_tr] in *.
     destruct r1 as [st|]; [|apply good_error; assumption].
@@ -169,6 +204,7 @@ Section RunJ.
     match goal with |- context [fetch_all sc s1 ?c] => set (cand := c) in * end.
     pose proof (same4_fetch_all sc cand s1) as L2. pose proof (fetch_all_cl sc cand s1) as [_ [_ FC]].
     pose proof (fetch_all_complete sc cand s1) as FCo. pose proof (fetch_all_NoDup sc cand s1) as FN.
+    pose proof (cache_fetch_all cand s1) as KC2.
     destruct (fetch_all sc s1 cand) as [s2 r2]. cbn [fst snd] in *. destruct L2 as [C2 [B2 [A2 T2]]].
     destruct r2 as [pobjs|]; [|apply good_error; congruence].
     specialize (FC pobjs eq_refl). specialize (FCo pobjs eq_refl). rewrite C1 in FC, FCo.
@@ -213,11 +249,14 @@ Section RunJ.
     destruct (register_spec sc pl s2 ET2) as [C3 [A3 [T3 [K3 V3]]]]. cbv zeta in *.
     set (s3 := register sc pl s2) in *.
     pose proof (same4_inv_list sc s3) as L4. pose proof (inv_list_res sc s3) as R4.
+    pose proof (cache_inv_list sc s3) as KC4. pose proof (cache_register pl s2) as KC3. fold s3 in KC3.
     destruct (inv_list sc s3) as [s4 r4]. cbn [fst snd] in *. destruct L4 as [C4 [B4 [A4 T4]]].
+    assert (KA4 : r_cache s4 = []) by (rewrite KC4, KC3, KC2, KC1; reflexivity).
+    set (tw := wtodo_of (tasks_of sc pl)) in *.
     assert (CL4 : r_cl s4 = c0) by congruence.
     assert (TR4 : r_tr s4 = []) by congruence.
     assert (AB4 : r_aband s4 = []) by congruence.
-    assert (I4 : Ij sc c0 pl P0 td s4).
+    assert (I4 : Ij sc c0 pl P0 td tw s4).
     { unfold Ij. destruct dry; [exact CL4|].
       apply init_Big; auto.
       - rewrite B4. exact K3.
@@ -226,13 +265,14 @@ Section RunJ.
                   pv = inv0 c0).
     { intros pv E. destruct r4 as [x|]; [|discriminate]. specialize (R4 x eq_refl).
       rewrite C3, C2, C1 in R4. subst x. cbn in E. injection E as <-. reflexivity. }
-    assert (FIN : forall sf f' td', stepj sc c0 pl P0 td f' td' s4 sf -> KFp (inv0 c0) (r_tr sf) -> good sf).
-    { intros sf f' td' [l [E H]] K. destruct (H K I4) as [If F]. rewrite TR4, app_nil_r in E.
+    assert (FIN : forall sf f' td' tw', stepj sc c0 pl P0 td tw f' td' tw' s4 sf -> KFp (inv0 c0) (r_tr sf) -> good sf).
+    { intros sf f' td' tw' [l [E H]] K. destruct (H K I4) as [If F]. rewrite TR4, app_nil_r in E.
       unfold good. rewrite E. split; [exact F|]. unfold Ij in If. destruct dry.
       - rewrite If. split; [exact wf_nodup|apply J_c0].
-      - split; [exact (B_nd _ _ _ _ _ _ If)|exact (B_J _ _ _ _ _ _ If)]. }
-    assert (V : forall errs s, stepj sc c0 pl P0 td P0 td s (fold_left (fun s e => ev s (EValidation (sortn e))) errs s)).
-    { intros errs s. apply stepj_quiet. apply quiet_fold. intros; apply quiet_ev. }
+      - split; [exact (B_nd _ _ _ _ _ _ _ If)|exact (B_J _ _ _ _ _ _ _ If)]. }
+    assert (V : forall errs s, stepj sc c0 pl P0 td tw P0 td tw s (fold_left (fun s e => ev s (EValidation (sortn e))) errs s)).
+    { intros errs s. destruct (val_fold_same errs s) as [X1 X2].
+      apply stepj_quiet; [apply quiet_fold; intros; apply quiet_ev|exact X1|exact X2]. }
     assert (TASKS : forall errs,
       let s6 := ev (fold_left (fun s e => ev s (EValidation (sortn e))) errs s4)
                    (EInit (map (fun t => (task_name t, task_ids pl t)) (tasks_of sc pl))) in
@@ -244,9 +284,9 @@ Section RunJ.
                 end in
       KFp (inv0 c0) (r_tr sf) -> good sf).
     { intros errs s6 sf K.
-      assert (S6 : stepj sc c0 pl P0 td P0 td s4 s6) by (eapply stepj_trans; [apply V|apply stepj_ev]).
-      destruct (j_run_tasks sc c0 pl wf_nodup wf_uid_lt wf_uid_inj wf_ns PL_disj PL_c0 PL_cover PL_destroy PL_local
-                  locals _ HPV (tasks_of sc pl) P0 s6 SCHED) as [f' [td' RT]].
+      assert (S6 : stepj sc c0 pl P0 td tw P0 td tw s4 s6) by (eapply stepj_trans; [apply V|apply stepj_ev]).
+      destruct (j_run_tasks sc c0 pl wf_nodup wf_uid_lt wf_uid_inj wf_ns PL_disj PL_c0 PL_cover PL_destroy PL_local wf_fin
+                  locals _ HPV (tasks_of sc pl) P0 s6 SCHED) as [f' [td' [tw' RT]]].
       unfold sf in *. destruct (e_cancel (sc_env sc)).
       - eapply FIN; [eapply stepj_trans; [exact S6|exact RT]|exact K].
       - eapply FIN; [eapply stepj_trans; [exact S6|apply stepj_ev]|exact K].
@@ -322,7 +362,8 @@ Lemma kf_witness_WF : WF kf_witness_sc kf_witness_c0.
 Proof.
   unfold WF. cbn. split.
   - intros _. constructor; [intros [H|[]]; discriminate|]. constructor; [intros []|constructor].
-  - split; [constructor|]. split; [intros c []|]. split; [intros c c' []|]. split; [discriminate|discriminate].
+  - split; [constructor|]. split; [intros c []|]. split; [intros c c' []|]. split; [discriminate|].
+    split; [discriminate|intros w o []].
 Qed.
 
 Lemma invns_refuted : exists sc c0, WF sc c0 /\ mon_C01 sc c0 (run sc c0) = false.
@@ -376,4 +417,76 @@ Proof.
     - apply existsb_exists. exists (IEv (EApply g n a)). split; [exact Hin|].
       destruct Ha as [-> | ->]; apply Nat.eqb_refl. }
   split; apply X; auto.
+Qed.
+
+(* ---- WF as a boolean (definitions at the end of Corr/CorrPipeline.v) -------------------------------- *)
+Lemma kst_eqb_eq a b : kst_eqb a b = true <-> a = b.
+Proof. destruct a, b; cbn; split; congruence. Qed.
+
+Lemma fin_obs_ok_spec sc c0 o : fin_obs_ok sc c0 o = true <->
+  (u_fin (uinfo_of sc (s_id o)) = true ->
+   s_st o <> SNotFound /\
+   (s_body o = true -> s_uid o <> 0%N -> forall c, In c (objs c0) -> c_id c = s_id o -> s_uid o = c_uid c)).
+Proof.
+  unfold fin_obs_ok. destruct (u_fin (uinfo_of sc (s_id o))); cbn [negb orb]; [|split; [discriminate|reflexivity]].
+  rewrite andb_true_iff, negb_true_iff, !orb_true_iff, negb_true_iff, N.eqb_eq, forallb_forall. split.
+  - intros [A B] _. split; [intros E; rewrite E in A; discriminate|].
+    intros Hb Hu c Hc Hi. destruct B as [[B|B]|B]; [congruence|contradiction|].
+    specialize (B c Hc). apply orb_true_iff in B. destruct B as [B|B]; [|apply N.eqb_eq; exact B].
+    apply negb_true_iff, Nat.eqb_neq in B. contradiction.
+  - intros H. destruct (H eq_refl) as [A B]. split.
+    + destruct (kst_eqb (s_st o) SNotFound) eqn:E; [|reflexivity]. apply kst_eqb_eq in E. contradiction.
+    + destruct (s_body o); [|left; left; reflexivity]. destruct (N.eq_dec (s_uid o) 0) as [Z|Z]; [left; right; exact Z|right].
+      intros c Hc. apply orb_true_iff. destruct (Nat.eqb (c_id c) (s_id o)) eqn:E; [right|left; reflexivity].
+      apply Nat.eqb_eq in E. apply N.eqb_eq. apply B; auto.
+Qed.
+
+Lemma wf_fin_b_spec sc c0 : wf_fin_b sc c0 = true <->
+  (forall w o, In w (e_waits (sc_env sc)) -> In o (w_deliv w) -> u_fin (uinfo_of sc (s_id o)) = true ->
+     s_st o <> SNotFound /\
+     (s_body o = true -> s_uid o <> 0%N -> forall c, In c (objs c0) -> c_id c = s_id o -> s_uid o = c_uid c)).
+Proof.
+  unfold wf_fin_b. rewrite forallb_forall. split.
+  - intros H w o Hw Ho. specialize (H w Hw). rewrite forallb_forall in H. apply fin_obs_ok_spec. apply H. exact Ho.
+  - intros H w Hw. apply forallb_forall. intros o Ho. apply fin_obs_ok_spec. apply (H w o Hw Ho).
+Qed.
+
+Lemma nodupb_spec l : nodupb l = true <-> NoDup l.
+Proof.
+  induction l as [|x t IH]; cbn; [split; [constructor|reflexivity]|].
+  rewrite andb_true_iff, negb_true_iff, IH. split.
+  - intros [A B]. constructor; [|exact B]. intros X. apply memn_In in X. congruence.
+  - intros H. inversion H as [|? ? A B]; subst. split; [|exact B].
+    destruct (memn x t) eqn:E; [|reflexivity]. apply memn_In in E. contradiction.
+Qed.
+
+Lemma wf_b_spec sc c0 : wf_b sc c0 = true <-> WF sc c0.
+Proof.
+  unfold wf_b, WF. rewrite !andb_true_iff, !orb_true_iff, !negb_true_iff, !nodupb_spec, wf_fin_b_spec, !forallb_forall.
+  assert (E4 : (forall c, In c (objs c0) ->
+                  forallb (fun c' => negb (N.eqb (c_uid c) (c_uid c')) || Nat.eqb (c_id c) (c_id c')) (objs c0) = true) <->
+               (forall c c', In c (objs c0) -> In c' (objs c0) -> c_uid c = c_uid c' -> c_id c = c_id c')).
+  { split.
+    - intros H c c' Hc Hc' E. specialize (H c Hc). rewrite forallb_forall in H. specialize (H c' Hc').
+      apply orb_true_iff in H. destruct H as [H|H]; [|apply Nat.eqb_eq; exact H].
+      apply negb_true_iff, N.eqb_neq in H. contradiction.
+    - intros H c Hc. apply forallb_forall. intros c' Hc'. apply orb_true_iff.
+      destruct (N.eqb (c_uid c) (c_uid c')) eqn:E; [right|left; reflexivity].
+      apply N.eqb_eq in E. apply Nat.eqb_eq. auto. }
+  assert (E5 : match sc_inv_ns sc, inv c0 with
+               | Some n, Some l => memn n (map c_id (objs c0)) || memn n l
+               | _, _ => true
+               end = true <->
+               (forall n l, sc_inv_ns sc = Some n -> inv c0 = Some l -> In n (map c_id (objs c0)) \/ In n l)).
+  { destruct (sc_inv_ns sc) as [n|]; [|split; [intros _ n l X; discriminate X|reflexivity]].
+    destruct (inv c0) as [l|]; [|split; [intros _ n0 l X Y; discriminate Y|reflexivity]].
+    rewrite orb_true_iff, !memn_In. split.
+    - intros H n0 l0 [= <-] [= <-]. exact H.
+    - intros H. apply (H n l); reflexivity. }
+  rewrite E4, E5.
+  assert (E3 : (forall c, In c (objs c0) -> N.ltb (c_uid c) (next_uid c0) = true) <->
+               (forall c, In c (objs c0) -> (c_uid c < next_uid c0)%N)).
+  { split; intros H c Hc; specialize (H c Hc); apply N.ltb_lt; exact H. }
+  rewrite E3.
+  destruct (o_destroy (sc_opts sc)); destruct (o_prune (sc_opts sc)); intuition congruence.
 Qed.
